@@ -194,7 +194,7 @@ def region_of(c):
     return tuple(sl)
 
 
-def run_call(c, workdir, res, monitors_c05=False):
+def run_call(c, workdir, res, monitors_c05=False, callbacks=None):
     """-> (violations for C11, c05 observations)"""
     import cubed
 
@@ -227,6 +227,8 @@ def run_call(c, workdir, res, monitors_c05=False):
     err = None
     try:
         kw = {"executor": ex, "optimize_graph": c["optimize"]}
+        if callbacks:
+            kw["callbacks"] = callbacks
         if c["api"] == "to_zarr":
             tkw = {"path": "grp/x"} if c["target"] == "group" else {}
             if c["lazy"]:
